@@ -410,7 +410,7 @@ func MuxFileFor(m MuxSpec) []byte {
 	x.Solo(1, func() {
 		mm := mux.NewMuxer()
 		var md muxModel
-		applyCalls(m, blobs, mm, &md)
+		applyCalls(m, blobs, mm, &md, nil)
 		var buf bytes.Buffer
 		if mm.Assemble(&buf) == nil {
 			out = buf.Bytes()
